@@ -186,7 +186,13 @@ class InlinePass(ir.passes.InPlacePass):
         for func_id, function in model.functions.items():
             if func_id in self._inlined_functions:
                 continue
-            inner_id_count, inlined = self._inline_calls_in(function.graph)
+            # Opsets needed by bodies inlined into a kept function must be imported
+            # by that function, not (only) by the model
+            self._opset_imports = function.opset_imports
+            try:
+                inner_id_count, inlined = self._inline_calls_in(function.graph)
+            finally:
+                self._opset_imports = model.opset_imports
             total_inlined += inlined
             for k, v in inner_id_count.items():
                 id_count[k] = id_count.get(k, 0) + v
